@@ -31,6 +31,8 @@ func runC09(c *Ctx, r *Report) {
 	optionForwarding(c, r, "R-C09.6", append(append(loaderFetchSpecs(), constructorLoaderSpecs()...), constructorLogSpecs()...))
 	r.Doc("R-C09.7", "the fetch that rebuilds the log cannot stall or give up with hashes still queued: worker accounting, slot release before the mutex, re-checked condition waits")
 	importRules(c, r, "C11", []string{"R-C11.1", "R-C11.2", "R-C11.6"}, "R-C09.7")
+	r.Doc("R-C09.22", "the fetch dispatcher keeps waiting while work is outstanding, at every concurrency level (adopted from C11: a dispatcher that waits once and leaves hands back a truncated history as a complete log)")
+	importRules(c, r, "C11", []string{"R-C11.22"}, "R-C09.22")
 	r.Doc("R-C09.12", "the clock a writer stamps its entries with is its own key and a time above its heads (adopted from C04: two writers stamping with one clock id produce ties, and a rebuilt log then orders them by block arrival)")
 	importRules(c, r, "C04", []string{"R-C04.1", "R-C04.2"}, "R-C09.12")
 	r.Doc("R-C09.13", "the codec objects the fetch workers share while rebuilding a log are concurrency-safe (adopted from C18: a stateful unmarshaller shared by workers mixes up or drops the opened links, and the rebuilt log misses what was only reachable through them)")
